@@ -389,13 +389,131 @@ def main():
     body = m.group(1).strip()
     if body == "executionContext.pushCurrentTemplate(this);":
         call_changes = True
+        direct_changes = True
     elif re.fullmatch(r"const ElemTemplateElement\* const theInvoker = executionContext\.getInvoker\(\); if \(theInvoker != 0 && "
                       r"theInvoker->getXSLToken\(\) == StylesheetConstructionContext::ELEMNAME_CALL_TEMPLATE\) \{ "
                       r"executionContext\.pushCurrentTemplate\(executionContext\.getCurrentTemplate\(\)\); \} else \{ "
                       r"executionContext\.pushCurrentTemplate\(this\); \}", body):
         call_changes = False
+        direct_changes = True
+    elif re.fullmatch(r"const ElemTemplateElement\* const theInvoker = executionContext\.getInvoker\(\); if \(theInvoker != 0 && "
+                      r"\(theInvoker->getXSLToken\(\) == StylesheetConstructionContext::ELEMNAME_CALL_TEMPLATE \|\| "
+                      r"theInvoker->hasDirectTemplate\(\) == true\)\) \{ "
+                      r"executionContext\.pushCurrentTemplate\(executionContext\.getCurrentTemplate\(\)\); \} else \{ "
+                      r"executionContext\.pushCurrentTemplate\(this\); \}", body):
+        call_changes = False
+        direct_changes = False
     else:
         die("ElemTemplate::startElement has an unexpected shape: %r" % body[:300])
+
+    # ---- ElemApplyTemplates: is the new mode pushed before or after the xsl:with-param children are evaluated?
+    at = re.sub(r"\s+", " ", read("src/xalanc/XSLT/ElemApplyTemplates.cpp"))
+    cut = at.find("#if defined(XALAN_RECURSIVE_STYLESHEET_EXECUTION)")
+    if cut < 0:
+        die("ElemApplyTemplates.cpp: recursive-execution section not found")
+    at = at[:cut]      # the iterative implementation is the one that is compiled
+    m = re.search(r"ElemApplyTemplates::startElement\(StylesheetExecutionContext& executionContext\) const \{ ElemTemplateElement::startElement\(executionContext\); (.*?) return getFirstChildElemToExecute\(executionContext\); \}", at)
+    if not m:
+        die("ElemApplyTemplates::startElement")
+    body = m.group(1).strip()
+    push = r"if \(isDefaultTemplate\(\) == false\) \{ executionContext\.pushCurrentMode\(m_mode\); \}"
+    n_late = len(re.findall(push + r" return findNextTemplateToExecute\(executionContext\);", at))
+    n_push = len(re.findall(r"pushCurrentMode\(", at))
+    if re.fullmatch(push + r" executionContext\.pushInvoker\(this\);", body) and n_push == 1 and n_late == 0:
+        wp_callee_mode = True
+    elif body == "executionContext.pushInvoker(this);" and n_push == 2 and n_late == 2 and \
+            re.search(r"executionContext\.endParams\(\); " + push + r" return findNextTemplateToExecute", at):
+        wp_callee_mode = False
+    else:
+        die("ElemApplyTemplates: the mode is pushed in an unexpected place (%d pushes, %d before findNextTemplateToExecute)" % (n_push, n_late))
+    if len(re.findall(r"popCurrentMode\(", at)) != 1:
+        die("ElemApplyTemplates::endElement: popCurrentMode")
+
+    # ---- addToTable: every entry of the wildcard list goes, through addToList, into every named list
+    b = re.sub(r"\s+", " ", body_of(ss, r"static void\s+addToTable\s*\(", "addToTable"))
+    if not re.search(r"PatternTableMapType::iterator theCurrentTable = theTable\.begin\(\); const PatternTableMapType::iterator theTableEnd = theTable\.end\(\); "
+                     r"const PatternTableListType::const_iterator theListEnd = theList\.end\(\); while ?\(theCurrentTable != theTableEnd\) \{ "
+                     r"PatternTableListType::const_iterator theCurrent = theList\.begin\(\); while ?\(theCurrent != theListEnd\) \{ "
+                     r"addToList\(\(\*theCurrentTable\)\.second, \*theCurrent\); \+\+theCurrent; \} \+\+theCurrentTable; \}", b):
+        die("addToTable has an unexpected shape")
+
+    # ---- locateMatchPatternDataList: node type -> list
+    NT = {"ELEMENT_NODE": 1, "ATTRIBUTE_NODE": 2, "TEXT_NODE": 3, "CDATA_SECTION_NODE": 4, "PROCESSING_INSTRUCTION_NODE": 7,
+          "COMMENT_NODE": 8, "DOCUMENT_NODE": 9, "DOCUMENT_FRAGMENT_NODE": 11}
+    b = re.sub(r"\s+", " ", body_of(ss, r"Stylesheet::locateMatchPatternDataList\s*\(", "locateMatchPatternDataList"))
+    msw = re.search(r"switch ?\(targetNodeType\) \{(.*)\} return &(\w+);", b)
+    if not msw:
+        die("locateMatchPatternDataList: switch")
+    if msw.group(2) not in LISTS:
+        die("locateMatchPatternDataList: fall-through list %s" % msw.group(2))
+    locate_rows = []
+    locate_default = LISTS[msw.group(2)]
+    sw = msw.group(1)
+    groups = re.findall(r"((?:case XalanNode::\w+ ?: ?)+)(.*?)break;", sw)
+    seen_types = set()
+    for labels, action in groups:
+        types = re.findall(r"case XalanNode::(\w+)", labels)
+        action = action.strip()
+        if action == "return locateElementMatchPatternDataList(DOMServices::getLocalNameOfNode(theNode));":
+            code = 7
+        elif action == ("if ((DOMServices::isNamespaceDeclaration(static_cast<const XalanAttr&>(theNode)) == true)) { return &s_emptyTemplateList; } "
+                        "else { return locateAttributeMatchPatternDataList(DOMServices::getLocalNameOfNode(theNode)); }"):
+            code = 8
+        else:
+            m2 = re.fullmatch(r"return &(\w+);", action)
+            if not m2 or m2.group(1) not in LISTS:
+                die("locateMatchPatternDataList: unexpected action %r" % action[:160])
+            code = LISTS[m2.group(1)]
+        for t_ in types:
+            if t_ not in NT:
+                die("locateMatchPatternDataList: unexpected node type " + t_)
+            seen_types.add(t_)
+            locate_rows.append((NT[t_], code))
+    if "default: break;" not in re.sub(r"\s+", " ", sw) and "default:" not in sw:
+        die("locateMatchPatternDataList: default label")
+    for fn, tb, anyl in (("locateElementMatchPatternDataList", "m_elementPatternTable", "m_elementAnyPatternList"),
+                         ("locateAttributeMatchPatternDataList", "m_attributePatternTable", "m_attributeAnyPatternList")):
+        b2 = re.sub(r"\s+", " ", body_of(ss, r"Stylesheet::" + fn + r"\s*\(", fn))
+        if not re.search(r"const PatternTableMapType::const_iterator i = %s\.find\(theName\); if \(i != %s\.end\(\)\) \{ return &\(\*i\)\.second; \} else \{ return &%s; \}" % (tb, tb, anyl), b2):
+            die(fn + " has an unexpected shape")
+
+    # ---- findTemplateToTransformChild: built-in rule per node type (1 = process the children, 2 = copy the string value)
+    te = re.sub(r"\s+", " ", read("src/xalanc/XSLT/ElemTemplateElement.cpp"))
+    i_fn = te.find("ElemTemplateElement::findTemplateToTransformChild( StylesheetExecutionContext& executionContext, const ElemTemplateElement& xslInstruction, "
+                   "const ElemTemplateElement* theTemplate, XalanNode* child, XalanNode::NodeType nodeType) const")
+    if i_fn < 0:
+        die("findTemplateToTransformChild: signature")
+    fb = te[i_fn:i_fn + 6000]
+    msw = re.search(r"if ?\(0 == theTemplate\) \{ switch ?\(nodeType\) \{(.*?)default: break; \} \}", fb)
+    if not msw:
+        die("findTemplateToTransformChild: built-in rule switch")
+    RULE = {"getDefaultRule": 1, "getDefaultRootRule": 1, "getDefaultTextRule": 2}
+    builtin_rows = []
+    for labels, action in re.findall(r"((?:case XalanNode::\w+ ?: ?)+)(.*?)break;", msw.group(1)):
+        types = re.findall(r"case XalanNode::(\w+)", labels)
+        action = action.strip()
+        m2 = re.fullmatch(r"theTemplate = getStylesheet\(\)\.getStylesheetRoot\(\)\.(\w+)\(\);", action)
+        m3 = re.fullmatch(r"if \(DOMServices::isNamespaceDeclaration\(static_cast<const XalanAttr&>\(\*child\)\) == false\) \{ "
+                          r"theTemplate = getStylesheet\(\)\.getStylesheetRoot\(\)\.(\w+)\(\); \}", action)
+        mm = m2 or m3
+        if not mm or mm.group(1) not in RULE:
+            die("findTemplateToTransformChild: unexpected built-in action %r" % action[:160])
+        for t_ in types:
+            if t_ not in NT:
+                die("findTemplateToTransformChild: unexpected node type " + t_)
+            builtin_rows.append((NT[t_], RULE[mm.group(1)]))
+    if not re.search(r"if ?\(theTemplate == getStylesheet\(\)\.getStylesheetRoot\(\)\.getDefaultTextRule\(\)\) \{ switch ?\(nodeType\) \{ "
+                     r"case XalanNode::CDATA_SECTION_NODE: case XalanNode::TEXT_NODE: executionContext\.cloneToResultTree\( \*child, XalanNode::TEXT_NODE, true, false, getLocator\(\)\); break; "
+                     r"case XalanNode::ATTRIBUTE_NODE: \{ const XalanDOMString& val = child->getNodeValue\(\);", fb):
+        die("findTemplateToTransformChild: application of the built-in text rule")
+    sr = re.sub(r"\s+", " ", body_of(read("src/xalanc/XSLT/StylesheetRoot.cpp"), r"StylesheetRoot::initDefaultRule\s*\(", "initDefaultRule"))
+    for rule, child in (("m_defaultRule", "ELEMNAME_APPLY_TEMPLATES"), ("m_defaultTextRule", "ELEMNAME_VALUE_OF"),
+                        ("m_defaultRootRule", "ELEMNAME_APPLY_TEMPLATES")):
+        if not re.search(rule + r" = constructionContext\.createElement\( StylesheetConstructionContext::ELEMNAME_TEMPLATE, \*this, attrs\);.*?"
+                         r"childrenElement = constructionContext\.createElement\( StylesheetConstructionContext::" + child +
+                         r", \*this, attrs\); assert\(childrenElement != 0\); " + rule + r"->appendChildElem\(childrenElement\); " +
+                         rule + r"->setDefaultTemplate\(true\);", sr):
+            die("initDefaultRule: %s is not a template with a single %s child marked as default template" % (rule, child))
 
     os.makedirs(os.path.dirname(OUT), exist_ok=True)
     L = []
@@ -421,6 +539,13 @@ def main():
         "(%d, %d, [%s])" % (p, c, ", ".join(str(x) for x in ls)) for p, c, ls in route) + "]")
     L.append("/-- `Stylesheet::postConstruction`: addToTable(table, list) calls -/")
     L.append("def mergeRows : List (Nat × Nat) := [" + ", ".join("(%d, %d)" % x for x in merges) + "]")
+    L.append("/-- `locateMatchPatternDataList`: DOM node type (1 element, 2 attribute, 3 text, 4 CDATA, 7 PI, 8 comment, 9 document,"
+             " 11 fragment) -> list code (7/8 = named table falling back to the wildcard list; attribute: nothing for a namespace declaration) -/")
+    L.append("def locateRows : List (Nat × Nat) := [" + ", ".join("(%d, %d)" % x for x in sorted(locate_rows)) + "]")
+    L.append("def locateDefault : Nat := %d" % locate_default)
+    L.append("/-- `findTemplateToTransformChild`: built-in rule per node type: 1 = apply-templates to the children in the current mode,"
+             " 2 = copy the string value; a type that is not listed has no built-in action -/")
+    L.append("def builtinRows : List (Nat × Nat) := [" + ", ".join("(%d, %d)" % x for x in sorted(builtin_rows)) + "]")
     L.append("/-- `addToList`: the three comparison operators (0 is >, 1 is >=, 2 is ==, 3 is <, 4 is <=, 5 is !=) -/")
     L.append("def addToListOps : List Nat := [%d, %d, %d]" % tuple(cmp_ops))
     L.append("/-- `Stylesheet::addImport` inserts at the front of m_imports -/")
@@ -441,9 +566,16 @@ def main():
     L.append("/-- a priority attribute whose value is negative infinity is taken for 'no priority attribute' (unchanged code);"
              " false with proposed/C10-priority-negative-overflow.diff (ElemTemplate::hasPriority) -/")
     L.append("def negInfPriorityMeansNone : Bool := %s" % ("true" if neg_inf_sentinel else "false"))
+    L.append("/-- xsl:apply-templates pushes its mode before its xsl:with-param children are evaluated, so xsl:apply-imports in a"
+             " parameter body sees the callee's mode (unchanged code); false with proposed/C10-with-param-caller-mode.diff -/")
+    L.append("def withParamSeesCalleeMode : Bool := %s" % ("true" if wp_callee_mode else "false"))
     L.append("/-- a template invoked by xsl:call-template becomes the current template rule (unchanged code);"
              " false with proposed/C10-call-template-current-rule.diff -/")
     L.append("def callTemplateChangesCurrentRule : Bool := %s" % ("true" if call_changes else "false"))
+    L.append("/-- the same when the xsl:call-template is the only child of its parent and has no parameters: the parent then runs"
+             " the named template directly (eHasDirectTemplate) and is the invoker; false with"
+             " proposed/C10-direct-call-template-current-rule.diff -/")
+    L.append("def directCallTemplateChangesCurrentRule : Bool := %s" % ("true" if direct_changes else "false"))
     L.append("end XalanModel.Generated.C10")
     txt = "\n".join(L) + "\n"
     old = None
